@@ -63,7 +63,14 @@ Inductive case :=
      accepted (origin of the bailiwick test = the accepted message's question): which reply was accepted, the
      servers and the hosts glue was taken for *)
 | CaseExchGlue (stream : bool) (id : N) (q : question) (replies : list fmsg) (ipv6 : bool) (local : list ipaddr) (level : nat)
-               (obs_accept : option nat) (obs_servers : list ipaddr) (obs_found4 : list name).
+               (obs_accept : option nat) (obs_servers : list ipaddr) (obs_found4 : list name)
+  (* a history on the delegation cache: the real processAuthoritySection (-> processDelegation -> checkGlueRR ->
+     lookupV4Nss with a scripted Queryer) on authority sections of any response code.  Per event: how the call
+     ended (0 Resolver.authority, 1 referral rejected, 2 parent detection, 3 continued with the cached / the new
+     delegation, 4 no reachable server), the entry found on file under the first NS owner's key at each address
+     lookup that went out (the provisional publications), and the entries on file afterwards for the probed names *)
+| CaseDelegHist (local : list ipaddr) (evs : list deleg_event)
+                (obs : list (N * list deleg_entry * list (name * option deleg_entry))).
 
 (* ---------------------------------------------------------------- helpers *)
 Fixpoint list_eqb {A} (eqb : A -> A -> bool) (a b : list A) : bool :=
@@ -173,6 +180,26 @@ Definition model_glue_names (level : nat) (auth : name) (q : question) (m : umsg
   | None => []
   end.
 
+Definition de_eqb (a b : deleg_entry) : bool :=
+  name_eqb (de_zone a) (de_zone b) && list_eqb name_eqb (de_hosts a) (de_hosts b) && list_eqb ipaddr_eqb (de_servers a) (de_servers b).
+Definition outcome_class (o : deleg_outcome) : N :=
+  match o with DoAuthority => 0 | DoRejected => 1 | DoParent => 2 | DoCached | DoStored => 3 | DoNoServers => 4 end.
+(* the lookup order handed to the model is a permutation of the referral's host set *)
+Definition order_wf (e : deleg_event) : bool :=
+  match e with DelegMsg _ _ _ m order _ => same_names order (di_hosts (extract_info (u_ns m))) && Nat.eqb (length order) (length (di_hosts (extract_info (u_ns m)))) end.
+Fixpoint deleg_check (local : list ipaddr) (st : deleg_state) (evs : list deleg_event)
+         (obs : list (N * list deleg_entry * list (name * option deleg_entry))) : bool :=
+  match evs, obs with
+  | [], [] => true
+  | e :: er, (cls, snaps, probes) :: orest =>
+      let '(st1, r) := deleg_apply local st e in
+      (outcome_class (dr_outcome r) =? cls) &&
+      list_eqb de_eqb (map snd (filter fst (dr_snaps r))) snaps &&
+      forallb (fun p => opt_eqb de_eqb (deleg_get (fst p) (snd st1)) (snd p)) probes &&
+      order_wf e && deleg_check local st1 er orest
+  | _, _ => false
+  end.
+
 Definition check_case (c : case) : bool :=
   match c with
   | CaseQM req resp obs => Bool.eqb (question_matches req resp) obs
@@ -245,6 +272,7 @@ Definition check_case (c : case) : bool :=
       | Some (_, None) => false
       | None => match acc, srv, f4 with None, [], [] => true | _, _, _ => false end
       end
+  | CaseDelegHist local evs obs => deleg_check local ([], []) evs obs
   end.
 
 Definition spec_glue_source (local : list ipaddr) (host : name) (a : ipaddr) (evs : list glue_event) : bool :=
@@ -268,6 +296,31 @@ Definition spec_glue_source (local : list ipaddr) (host : name) (a : ipaddr) (ev
                                              | _ => false
                                              end) (snd p)) answers)
     end) evs.
+
+(* an entry of the delegation cache filed under [k]: its zone label is [k]; the servers of a zone strictly
+   above [k] sent, while a name below [k] was being resolved, ONE coherent NS set of the question's class owned
+   by [k] (whatever the response code); its hosts are targets of that set; its addresses are usable *)
+Definition first_ns_owner (m : umsg) : name := match ns_records (u_ns m) with r0 :: _ => rr_owner r0 | [] => [] end.
+Definition spec_deleg_entry (local : list ipaddr) (seen : list deleg_event) (k : name) (d : deleg_entry) : bool :=
+  spec_same_name (de_zone d) k &&
+  existsb (fun e => match e with
+                    | DelegMsg auth _ q m _ _ =>
+                        spec_valid_referral (u_ns m) auth q && spec_same_name (first_ns_owner m) k &&
+                        forallb (fun h => existsb (fun r => match rr_data r with RdName t => spec_same_name t h | _ => false end)
+                                                  (ns_records (u_ns m))) (de_hosts d)
+                    end) seen &&
+  forallb (spec_addr_ok local) (de_servers d).
+Fixpoint deleg_spec (local : list ipaddr) (seen : list deleg_event) (evs : list deleg_event)
+         (obs : list (N * list deleg_entry * list (name * option deleg_entry))) : bool :=
+  match evs, obs with
+  | e :: er, (_, snaps, probes) :: orest =>
+      let seen' := seen ++ [e] in
+      let k := match e with DelegMsg _ _ _ m _ _ => first_ns_owner m end in
+      forallb (spec_deleg_entry local seen' k) snaps &&
+      forallb (fun p => match snd p with Some d => spec_deleg_entry local seen' (fst p) d | None => true end) probes &&
+      deleg_spec local seen' er orest
+  | _, _ => true
+  end.
 
 (* -------------------------------------------------------------- spec_case *)
 Definition spec_case (c : case) : bool :=
@@ -361,4 +414,5 @@ Definition spec_case (c : case) : bool :=
       (let zone := firstn level (q_name q) in
        forallb (fun n => Nat.eqb (length zone) level && spec_in_zone zone n) f4) &&
       forallb (spec_addr_ok local) srv
+  | CaseDelegHist local evs obs => deleg_spec local [] evs obs
   end.
